@@ -77,7 +77,7 @@ class TLCResult:
     def coverage_actions(self):
         """action name -> (distinct, total) from -coverage output"""
         cov = {}
-        for m in re.finditer(r"^<(\w+) line \d+, col \d+ to line \d+, col \d+ of module (\w+)>: (\d+):(\d+)", self.out, re.M):
+        for m in re.finditer(r"^<(\w+) line \d+, col \d+ to line \d+, col \d+ of module (\w+)(?: \([\d ]+\))?>: (\d+):(\d+)", self.out, re.M):
             cov[m.group(1)] = (int(m.group(3)), int(m.group(4)))
         return cov
 
